@@ -95,8 +95,8 @@ def joinTypes (l : List Ty) : Ty :=
   | [t] => t
   | [] => .nothing
   | _ =>
-    if ms.contains .any then
-      (if ms.contains (.named "builtins.NoneType") || ms.contains (.named "NoneType") then
+    if ms.any (fun t => t = .any) then
+      (if ms.any (fun t => t = .named "builtins.NoneType" ∨ t = .named "NoneType") then
         mkUnion [.any, .named "builtins.NoneType"] else .any)
     else mkUnion ms
 
@@ -227,22 +227,28 @@ def buildCallable (bn : String) (ps : List PArg) : PM Ty :=
     else .error (.parse "First argument to Callable must be a list of argument types")
   | _ => .error (.parse "Expected 2 parameters to Callable")
 
+/-- one parameter of `Literal[…]` in `_pytd_literal` -/
+def litParamTypes : PArg → PM (List Ty)
+  | .lit v => .ok [Ty.literal v]
+  | .ty (.named n) =>
+    if n = "None" ∨ n = "NoneType" then .ok [.named n]
+    else match (comps n).reverse with
+      | m :: c :: rest => .ok [.literal (.enumMember (joinDots (c :: rest).reverse) m)]
+      | _ => .error (.unsupported "Literal of an undotted name")
+  | .ty (.literal v) => .ok [.literal v]
+  | .ty (.union ts) =>
+    if ts.all (fun t => match t with | .literal _ => true | _ => false) then .ok ts
+    else .error (.parse "Literal[...] not supported")
+  | _ => .error (.parse "Literal[...] not supported")
+
+def litParamsTypes : List PArg → PM (List Ty)
+  | [] => .ok []
+  | p :: ps => do let a ← litParamTypes p; let b ← litParamsTypes ps; .ok (a ++ b)
+
 /-- `_pytd_literal`: the members of `Literal[p₁, …]` joined -/
 def pytdLiteral (ps : List PArg) : PM Ty := do
-  let ms ← ps.mapM fun p =>
-    match p with
-    | .lit v => (.ok [Ty.literal v] : PM (List Ty))
-    | .ty (.named n) =>
-      if n = "None" ∨ n = "NoneType" then .ok [.named n]
-      else match (comps n).reverse with
-        | m :: c :: rest => .ok [.literal (.enumMember (joinDots (c :: rest).reverse) m)]
-        | _ => .error (.unsupported "Literal of an undotted name")
-    | .ty (.literal v) => .ok [.literal v]
-    | .ty (.union ts) =>
-      if ts.all (fun t => match t with | .literal _ => true | _ => false) then .ok ts
-      else .error (.parse "Literal[...] not supported")
-    | _ => .error (.parse "Literal[...] not supported")
-  .ok (joinTypes ms.flatten)
+  let ms ← litParamsTypes ps
+  .ok (joinTypes ms)
 
 /-- `len(parameters) == 2 and parameters[1] is self.ELLIPSIS`: `tuple[X, ...]` -/
 def homTupleParam : List PArg → Option PArg
@@ -1545,7 +1551,8 @@ def fTy (g : GCtx) (inParam : Bool) : Ty → Bool
       normTys g.tps inParam ps.dropLast ≠ [.nothing]
   | .union ts =>
     !ts.isEmpty && !ts.any isUnionTy && fTys g inParam ts &&
-      pyDistinct (unionRes inParam (normTys g.tps inParam ts))
+      pyDistinct (unionRes inParam (normTys g.tps inParam ts)) &&
+      !(unionRes inParam (normTys g.tps inParam ts)).isEmpty
   | .literal (.str s) => plainStr s
   | .literal (.enumMember _ _) => false
   | .literal _ => true
